@@ -7,6 +7,7 @@ package main
 
 import (
 	"fmt"
+	"go/constant"
 	"go/token"
 	"go/types"
 	"os"
@@ -22,10 +23,15 @@ type dimAnalyzer struct {
 	// per-function map kinds, memoised for the flow of maps between functions of one package
 	fnMemo map[*ssa.Function]*fnDims
 	fnBusy map[*ssa.Function]bool
+	// kinds of maps that more than one function reaches (carrier-struct fields, variables captured by
+	// closures): what any function of the package fills them under
+	sharedKey map[ssa.Value]string
+	sharedVal map[ssa.Value]string
+	sharedFor map[*ssa.Package]bool
 }
 
 func newDimAnalyzer(m *Model) *dimAnalyzer {
-	d := &dimAnalyzer{m: m, refs: map[string]string{}, fnMemo: map[*ssa.Function]*fnDims{}, fnBusy: map[*ssa.Function]bool{}}
+	d := &dimAnalyzer{m: m, refs: map[string]string{}, fnMemo: map[*ssa.Function]*fnDims{}, fnBusy: map[*ssa.Function]bool{}, sharedKey: map[ssa.Value]string{}, sharedVal: map[ssa.Value]string{}, sharedFor: map[*ssa.Package]bool{}}
 	for _, fk := range fkSpecs {
 		d.refs[fk.table+"."+fk.field] = fk.refTable + "." + fk.refField
 	}
@@ -87,12 +93,70 @@ func mapRoot(v ssa.Value) ssa.Value {
 						continue
 					}
 				}
+				// a map held in a field of a carrier struct: one identity per (struct type, field), shared by
+				// all the functions and methods that reach it
+				if fa, ok := x.X.(*ssa.FieldAddr); ok {
+					if _, isMap := x.Type().Underlying().(*types.Map); isMap {
+						return fieldMapRoot(fa)
+					}
+				}
+				// a map variable of the enclosing function captured by a closure: the enclosing function's map
+				if fv, ok := x.X.(*ssa.FreeVar); ok {
+					if a := freeVarAlloc(fv); a != nil {
+						if sv := uniqueStore(a); sv != nil {
+							v = sv
+							continue
+						}
+					}
+				}
 			}
 			return nil
 		case *ssa.Phi:
 			return nil
 		default:
 			return nil
+		}
+	}
+	return nil
+}
+
+var fieldMapRoots = map[string]ssa.Value{}
+
+func fieldMapRoot(fa *ssa.FieldAddr) ssa.Value {
+	key := fa.X.Type().String() + "#" + fmt.Sprint(fa.Field)
+	if r, ok := fieldMapRoots[key]; ok {
+		return r
+	}
+	r := ssa.NewConst(constant.MakeString("fieldmap:"+key), types.Typ[types.String])
+	fieldMapRoots[key] = r
+	return r
+}
+
+// freeVarAlloc: the variable of the enclosing function that a closure's free variable is bound to.
+func freeVarAlloc(fv *ssa.FreeVar) *ssa.Alloc {
+	fn := fv.Parent()
+	if fn == nil || fn.Parent() == nil {
+		return nil
+	}
+	idx := -1
+	for i, q := range fn.FreeVars {
+		if q == fv {
+			idx = i
+		}
+	}
+	if idx < 0 {
+		return nil
+	}
+	for _, b := range fn.Parent().Blocks {
+		for _, in := range b.Instrs {
+			if mc, ok := in.(*ssa.MakeClosure); ok && mc.Fn == ssa.Value(fn) && idx < len(mc.Bindings) {
+				switch bv := mc.Bindings[idx].(type) {
+				case *ssa.Alloc:
+					return bv
+				case *ssa.FreeVar:
+					return freeVarAlloc(bv)
+				}
+			}
 		}
 	}
 	return nil
@@ -149,12 +213,12 @@ func (f *fnDims) compute(v ssa.Value) string {
 		return f.rowField(x.X, x.Field)
 	case *ssa.Lookup:
 		if r := mapRoot(x.X); r != nil && !x.CommaOk {
-			return f.mapVal[r]
+			return f.valOf(r)
 		}
 	case *ssa.Extract:
 		if lk, ok := x.Tuple.(*ssa.Lookup); ok && x.Index == 0 {
 			if r := mapRoot(lk.X); r != nil {
-				return f.mapVal[r]
+				return f.valOf(r)
 			}
 		}
 		if call, ok := x.Tuple.(*ssa.Call); ok && x.Index == 0 {
@@ -314,7 +378,52 @@ func (d *dimAnalyzer) mapDims(fn *ssa.Function) (f *fnDims, issues []dimIssue) {
 		}
 	}
 	f.memo = map[ssa.Value]string{}
+	for r, k := range f.mapKey {
+		if _, has := d.sharedKey[r]; !has {
+			d.sharedKey[r] = k
+		}
+	}
+	for r, v := range f.mapVal {
+		if _, has := d.sharedVal[r]; !has {
+			d.sharedVal[r] = v
+		}
+	}
 	return f, issues
+}
+
+// ensureShared: the map kinds of every function of the package (closures included) are known — two rounds,
+// so that a value kind that depends on another shared map settles.
+func (d *dimAnalyzer) ensureShared(pkg *ssa.Package) {
+	if pkg == nil || d.sharedFor[pkg] {
+		return
+	}
+	d.sharedFor[pkg] = true
+	for round := 0; round < 2; round++ {
+		for _, fn := range pkgFuncs(pkg.Prog, pkg) {
+			if len(fn.Blocks) > 0 {
+				d.mapDims(fn)
+			}
+			for _, an := range fn.AnonFuncs {
+				d.mapDims(an)
+			}
+		}
+	}
+}
+
+func (f *fnDims) valOf(r ssa.Value) string {
+	if v, ok := f.mapVal[r]; ok && v != "" {
+		return v
+	}
+	f.d.ensureShared(f.fn.Pkg)
+	return f.d.sharedVal[r]
+}
+
+func (f *fnDims) keyOf(r ssa.Value) string {
+	if v, ok := f.mapKey[r]; ok && v != "" {
+		return v
+	}
+	f.d.ensureShared(f.fn.Pkg)
+	return f.d.sharedKey[r]
 }
 
 func (d *dimAnalyzer) analyzeUses(f *fnDims, issues []dimIssue) ([]dimIssue, int) {
@@ -391,7 +500,23 @@ func (d *dimAnalyzer) checkedLookups(fn *ssa.Function) map[string]string {
 			switch x := in.(type) {
 			case *ssa.Call:
 				oc := d.m.AsORMCall(x)
-				if oc == nil || (oc.Kind != "get" && oc.Kind != "has") {
+				if oc == nil {
+					// a hand-written helper that performs the tested comma-ok lookup on a map and a key it is
+					// handed (`lookup[K,V](m, key, missing)`): the call resolves the key like the lookup would
+					if sc := x.Call.StaticCallee(); sc != nil && len(sc.Blocks) > 0 && isRepoPkgPath(fnPkgPath(sc)) {
+						if mi, ki, ok := lookupHelperParams(sc); ok && mi < len(x.Call.Args) && ki < len(x.Call.Args) {
+							// the helper's error must be what fails: its error result is tested or returned by the caller
+							if kd := f.dim(x.Call.Args[ki]); kd != "" {
+								out[kd] = "tested map lookup (through " + sc.Name() + ")"
+							}
+							for _, src := range rowColumnSources(x.Call.Args[ki], 0) {
+								out["src:"+src] = "tested map lookup (through " + sc.Name() + ")"
+							}
+						}
+					}
+					continue
+				}
+				if oc.Kind != "get" && oc.Kind != "has" {
 					continue
 				}
 				for i := 1; i < len(x.Call.Args); i++ {
@@ -1011,3 +1136,39 @@ func fnSet(fns []*ssa.Function) map[*ssa.Function]bool {
 }
 
 var _ = types.Typ
+
+// lookupHelperParams: fn performs a comma-ok lookup `m[k]` on two of its own parameters, branches on the ok flag,
+// and has an error result (the not-found arm is what makes the lookup one that can fail).
+func lookupHelperParams(fn *ssa.Function) (mapIdx, keyIdx int, ok bool) {
+	if errResultIndex(fn.Signature) < 0 {
+		return 0, 0, false
+	}
+	pidx := func(v ssa.Value) int {
+		for i, q := range fn.Params {
+			if ssa.Value(q) == v {
+				return i
+			}
+		}
+		return -1
+	}
+	for _, b := range fn.Blocks {
+		for _, in := range b.Instrs {
+			lk, isL := in.(*ssa.Lookup)
+			if !isL || !lk.CommaOk {
+				continue
+			}
+			mi, ki := pidx(lk.X), pidx(lk.Index)
+			if mi < 0 || ki < 0 {
+				continue
+			}
+			for _, r := range *lk.Referrers() {
+				if ex, isEx := r.(*ssa.Extract); isEx && ex.Index == 1 {
+					if ifi, _ := ifOn(ex); ifi != nil {
+						return mi, ki, true
+					}
+				}
+			}
+		}
+	}
+	return 0, 0, false
+}
